@@ -27,6 +27,10 @@ CMDS = {
     'X': [b'STORE 1 +FLAGS (\\Deleted)', b'EXPUNGE'],
     'S': [b'STORE 2 +FLAGS.SILENT (\\Seen)'],
     'M': [b'MOVE 2 Other'],
+    # replace with the empty list: clears every flag of message 3 (which
+    # starts out \\Answered); a change although no flag is named
+    'R': [b'STORE 3 FLAGS ()'],
+    'K': [b'STORE 3 FLAGS (\\Recent)'],
 }
 
 
@@ -54,7 +58,8 @@ class Exec:
             assert ctx.do(si, b'LOGIN alice pw').cond == 'OK'
         assert ctx.do(0, b'CREATE Other').cond == 'OK'
         for i in (1, 2, 3):
-            assert ctx.do(0, b'APPEND INBOX ' + lit(msg(i))).cond == 'OK'
+            fl = b'(\\Answered) ' if i == 3 else b''
+            assert ctx.do(0, b'APPEND INBOX ' + fl + lit(msg(i))).cond == 'OK'
         for si in range(n):
             assert ctx.do(si, b'SELECT INBOX').cond == 'OK'
             assert ctx.do(si, b'FETCH 1:* (UID FLAGS)').cond == 'OK'
@@ -303,7 +308,7 @@ def _explore(args):
 
 def scenarios(tier):
     S = []
-    letters = 'AFX' if tier == 'quick' else 'AFXSM'
+    letters = 'AFX' if tier == 'quick' else 'AFXSMR'
     for n in (1, 2) if tier == 'quick' else (1, 2, 3):
         for b in itertools.product(letters, repeat=n):
             S.append((1, (''.join(b),)))
@@ -315,6 +320,10 @@ def scenarios(tier):
         for b in letters[:3]:
             S.append((1, (b,), b'DONE\r\n', pre))
     S.append((1, ('AX',), b'WHAT\r\n'))
+    for b in ('R', 'K', 'RA', 'AR', 'FR', 'RX'):
+        S.append((1, (b,)))
+    S.append((1, ('R', 'A')))
+    S.append((2, ('R',)))
     if tier != 'quick':
         for a, b in itertools.product('AFX', repeat=2):
             S.append((2, (a, b)))
